@@ -89,6 +89,7 @@ class MachO(BinFormat):
         self.__file = f
         self.__entry = None
         self._is_fat = False
+        self.dynamic = False
         try:
             self.header = struct_mach_header(f)
         except:
